@@ -144,6 +144,17 @@ def run(model, col, tier):
     # no lexer rule rewrites lexpos
     rew = [n for m in lex.methods.values() for n in ast.walk(m) if isinstance(n, (ast.Assign, ast.AugAssign)) and "lexpos" in unparse(n.targets[0] if isinstance(n, ast.Assign) else n.target)]
     col.check(not rew, "R20.2", "nsl/lexer.py::NslLexer leaves lexpos alone", "token offsets are PLY's offsets into the input string", "a lexer rule rewrites lexpos", "nsl/lexer.py", lex.node)
+    # __GetLocation measures len(p[k]): the token value must stay the matched text
+    for name, m in lex.methods.items():
+        if not name.startswith("t_") or len(m.args.args) < 2:
+            continue
+        tp = m.args.args[1].arg
+        vrew = [n for n in ast.walk(m) if isinstance(n, (ast.Assign, ast.AugAssign)) and
+                any(isinstance(t, ast.Attribute) and t.attr == "value" and isinstance(t.value, ast.Name) and t.value.id == tp
+                    for t in (n.targets if isinstance(n, ast.Assign) else [n.target]))]
+        col.check(not vrew, "R20.2", f"nsl/lexer.py::NslLexer.{name} keeps the token text",
+                  "the token value is the matched source text (its length is the token's extent)",
+                  f"`{unparse(vrew[0]) if vrew else ''}` changes the token's value: the parser computes a token's end as lexpos + len(value), so the located range no longer covers the token's characters", "nsl/lexer.py", m)
     # ---------------- R20.3 ----------------------------------------------------
     loc = model.cls(ASTF, "Location")
     mg = loc.own_method("Merge")
